@@ -127,6 +127,22 @@ class BlockMat(ObjVal):
     __repr__ = show
 
 
+class Blk4(ObjVal):
+    """a 4-d array of lag blocks gathered with an index grid: entry [i, j] (i < ni, j < nj) is the block blk(i, j); `order` lists what
+    the four array axes carry: 'i', 'j' (block indices), 'r', 'c' (rows / columns inside a block)"""
+
+    def __init__(self, vi, ni, vj, nj, blk, order=("i", "j", "r", "c")):
+        self.vi, self.ni, self.vj, self.nj, self.blk, self.order = vi, ni, vj, nj, blk, tuple(order)
+
+    def subs(self, name, val):
+        return Blk4(self.vi, psubs(self.ni, name, val), self.vj, psubs(self.nj, name, val), self.blk.subs(name, val) if name not in (self.vi, self.vj) else self.blk, self.order)
+
+    def show(self):
+        return f"Blk4[{self.vi} < {self.ni!r}, {self.vj} < {self.nj!r}: {self.blk.show()}]@{''.join(self.order)}"
+
+    __repr__ = show
+
+
 class RFac(ObjVal):
     def __init__(self, arg, mode, transposed=False):
         self.arg, self.mode, self.transposed = arg, mode, transposed
@@ -192,7 +208,39 @@ class Interp(seqdom.Interp):
             return Tup([I(base.n * P.s(SYM[base.win.role][0])), I(base.win.hi - base.win.lo)])
         return None
 
+    def grid_gather(self, base, node):
+        """Ri[G] for a list / array of per-lag blocks Ri and a 2-d integer grid G (broadcast sum of two ramps): a 4-d array of blocks"""
+        t = normalise(base.t)
+        if not (t[0] == "for" and t[4][0] == "obj" and isinstance(t[4][1], Corr)):
+            return None
+        from . import lamdom
+        expr = astq.expr_at(self.fi, node, node.slice)
+        it = lamdom.Interp(self.prog, self.fi)
+        for nm in {n.id for n in ast.walk(expr) if isinstance(n, ast.Name)}:
+            if nm not in ("np", "numpy"):
+                it.env[nm] = lamdom.scal(ast.Name(id=nm, ctx=ast.Load()))
+        g = it.ev(expr)
+        g = it.as_lam(g) if g is not None else None
+        if g is None or len(g.dims) != 2 or any(d.var is None or d.parts or d.filt or d.extent is None for d in g.dims):
+            return None
+        env = dict(self.env)
+        for d in g.dims:
+            env[d.var] = I(P.s(d.var))
+        lag = self.topoly(self.ev(g.body, env))
+        exts = [self.topoly(self.ev(d.extent, self.env)) for d in g.dims]
+        if lag is None or any(x is None for x in exts):
+            return None
+        blk = t[4][1]
+        # the list index runs from t[2]: entry k of the list is the block of lag t[2] + k ... the term already carries the offset
+        blk = blk.subs(t[1], lag)
+        return Blk4(g.dims[0].var, exts[0], g.dims[1].var, exts[1], blk)
+
     def index_hook(self, base, idx, node):
+        if isinstance(base, Sq) and len(idx) == 1 and isinstance(node, ast.Subscript) and not (isinstance(idx[0], tuple) and idx[0][0] == "slice") \
+                and not (isinstance(idx[0], Val) and self.topoly(idx[0]) is not None):
+            r = self.grid_gather(base, node)
+            if r is not None:
+                return r
         if isinstance(base, Rec) and not base.transposed and len(idx) == 2:
             r, c = idx
             if isinstance(r, tuple) and r[0] == "slice" and r[1] is None and r[2] is None and isinstance(c, tuple) and c[0] == "slice" and c[3] is None:
@@ -294,6 +342,36 @@ class Interp(seqdom.Interp):
         return Opq(f"stack `{astq.src(node, 50)}`")
 
     def call_hook(self, fn, args, kw, node, env):
+        if isinstance(node.func, ast.Attribute) and node.func.attr in ("transpose", "reshape", "swapaxes") or fn in ("numpy.transpose", "numpy.reshape", "numpy.moveaxis", "numpy.swapaxes"):
+            base = self.ev(node.func.value, env) if isinstance(node.func, ast.Attribute) and not fn.startswith("numpy.") else (args[0] if args else None)
+            rest = list(args) if isinstance(node.func, ast.Attribute) and not fn.startswith("numpy.") else list(args[1:])
+            if isinstance(base, Blk4):
+                name = node.func.attr if isinstance(node.func, ast.Attribute) and not fn.startswith("numpy.") else fn.split(".")[-1]
+                if len(rest) == 1 and isinstance(rest[0], Tup):
+                    rest = rest[0].items
+                vals = [self.topoly(x) if isinstance(x, Val) else None for x in rest]
+                if name == "transpose":
+                    if len(vals) == 4 and all(v is not None and v.is_const() for v in vals) and sorted(int(v.const()) % 4 for v in vals) == [0, 1, 2, 3]:
+                        return Blk4(base.vi, base.ni, base.vj, base.nj, base.blk, [base.order[int(v.const()) % 4] for v in vals])
+                    return Opq("transpose of a block array with non-constant axes")
+                if name in ("swapaxes",) and len(vals) == 2 and all(v is not None and v.is_const() for v in vals):
+                    o = list(base.order)
+                    a_, b_ = int(vals[0].const()) % 4, int(vals[1].const()) % 4
+                    o[a_], o[b_] = o[b_], o[a_]
+                    return Blk4(base.vi, base.ni, base.vj, base.nj, base.blk, o)
+                if name == "moveaxis" and len(vals) == 2 and all(v is not None and v.is_const() for v in vals):
+                    o = list(base.order)
+                    x = o.pop(int(vals[0].const()) % 4)
+                    o.insert(int(vals[1].const()) % 4, x)
+                    return Blk4(base.vi, base.ni, base.vj, base.nj, base.blk, o)
+                if name == "reshape" and len(vals) == 2 and all(v is not None for v in vals) and isinstance(base.blk, Corr):
+                    nr, nc = P.s(SYM[base.blk.wa.role][0]), P.s(SYM[base.blk.wb.role][0])
+                    if base.order == ("i", "r", "j", "c") and vals[0] == base.ni * nr and vals[1] == base.nj * nc:
+                        return BlockMat(base.vi, base.ni, BlockRow(base.vj, base.nj, base.blk))
+                    if base.order == ("j", "r", "i", "c") and vals[0] == base.nj * nr and vals[1] == base.ni * nc:
+                        return BlockMat(base.vj, base.nj, BlockRow(base.vi, base.ni, base.blk))
+                    return Opq(f"reshape of the block array with axes {''.join(base.order)} to ({vals[0]!r}, {vals[1]!r}) does not give block rows / columns")
+                return Opq(f"{name} of a block array")
         if fn in ("numpy.vstack", "numpy.row_stack") and args:
             return self._stack_of(args[0], 0, node)
         if fn in ("numpy.hstack", "numpy.column_stack") and args:
